@@ -14,8 +14,7 @@ def run(ctx, mode="single"):
     ctx.mc("MC_Cond", workers=2, note="by-name argument binding is independent of space / signature order; loss reductions; design-level interference of shared dictionaries (deviation cond_inplace_dict must violate)")
     ctx.mc("MC_Cond", "MC_Cond_inplace", workers=2, expect_violation="IsolationOK")
     if ctx.replay:
-        scen = [json.load(open(ctx.replay))["trace"]["scenario"]]
-        scen[0].pop("tid", None)
+        scen = ctx.replay_scenarios()
     elif mode == "single":
         scen = ctx.gen("Gen_Cond", "Gen_Cond_single")
     else:
